@@ -23,8 +23,25 @@ def db0 : Db :=
 
 /-- the nested mutation `Person { id: 1, parents: [{ id: 0, name: 66 }] }` by the outsider 5 -/
 def nestedByOutsider : Mut :=
-  { handle := 1, isNew := false, entity := 1, room := none, val := none,
-    field := .arr 0 [{ handle := 0, isNew := false, entity := 1, room := none, val := some 66 }] }
+  .mk 1 false 1 none none (.arr 0 [.mk 0 false 1 none (some 66) .none])
+
+/-- three levels, every row named by id: the unchanged row 1, below it the unchanged row 0, below it row 8 rewritten
+    (`Person { id: 1, parents: [{ id: 0, parents: [{ id: 8, name: 66 }] }] }`) -/
+def deepByOutsider : Mut :=
+  .mk 1 false 1 none none (.arr 0 [.mk 0 false 1 none none (.arr 0 [.mk 8 false 1 none (some 66) .none])])
+
+/-- `db0` with a third row of member 2 in room 0, referenced by row 0 -/
+def db3 : Db :=
+  { rows := db0.rows ++ [⟨8, 1, some 0, 2, 2, 2, 5⟩], edges := db0.edges ++ [⟨0, 0, 8, 2, 2⟩],
+    nodeTombs := [], edgeTombs := [] }
+
+/-- a four-level creation by member 3: a new row in room 0 (named), below it a new row that inherits room 0, below it
+    a new row that names room 1, below it a new row that inherits room 1 -/
+def deepCreate : Mut :=
+  .mk 20 true 1 (some 0) (some 1)
+    (.arr 0 [.mk 21 true 1 none (some 2)
+      (.arr 0 [.mk 22 true 1 (some 1) (some 3)
+        (.arr 0 [.mk 23 true 1 none (some 4) .none])])])
 
 def authorOf (r : Except MErr Db) (id : Nat) : Option Key :=
   match r with
